@@ -315,6 +315,7 @@ class Exec:
         s.self_binding = None    # for trait default bodies: what `Self` is ('GenericArray' / '&GenericArray' ...)
         s.unwind_edges = 0
         s.consts = {}
+        s.mir_text = None
         s.inductive = {'': False, '1': True, 'strict': 'strict'}.get(os.environ.get('MIRSYM_INDUCTIVE', ''), False)   # False | True (fall back to unrolling) | 'strict'
         s.inductive_used = s.inductive_failed = 0
         s.solver_timeout_ms = int(os.environ.get('MIRSYM_SOLVER_TIMEOUT_MS', '60000'))
@@ -1578,9 +1579,10 @@ class Exec:
             r = args[0]
             return [(s1, 'unwind' if k == 'unwind' else 'ret', Enum('Some', {0: v}) if k == 'some' else Enum('None', {}))
                     for (s1, k, v) in s.iter_next(st, r.cell, r.path, where)]
-        if re.match(r'Option::<.*>::is_some', c):
-            v = st.get(args[0].cell, args[0].path)
-            return R(z3.BoolVal(v.variant == 'Some'))
+        m = re.match(r'Option::<.*>::is_(some|none)$', c)
+        if m:
+            v = st.get(args[0].cell, args[0].path) if isinstance(args[0], Ref) else args[0]
+            return R(z3.BoolVal((v.variant == 'Some') == (m.group(1) == 'some')))
         if re.match(r'<F as FnMut<', c) or re.match(r'<F as FnOnce<', c):
             a = args[1] if len(args) > 1 else {}
             return s.extern_call(st, list(a.values()) if isinstance(a, dict) else [a], where, 'f')
@@ -1662,6 +1664,64 @@ class Exec:
                 s2 = st.clone(); s2.pc.append(z3.Not(has))
                 outs.append((s2, 'ret', Enum('None', {})))
             return outs
+        # ---- serde: the caller-supplied SeqAccess (may lie in its hints, fail at any element, or panic) and error constructors
+        if re.match(r'^<A as SeqAccess<.*>>::size_hint$', c):
+            r = args[0]
+            q = st.get(r.cell, r.path)
+            st.pc.append(ULE(q['yielded'], q['count']))      # invariant of this source model (re-stated: a loop summary may have havocked `yielded`)
+            outs = []
+            first = 'first_hint' not in q
+            s0 = st.clone(); s0.events.append('seq.size_hint() -> None'); outs.append((s0, 'ret', Enum('None', {})))
+            s1 = st.clone()
+            h = mkint('hint%d' % next(State._ids))
+            if first:      # the up-front announcement (the first thing the source is asked)
+                s0.get(r.cell, r.path)['first_hint'] = 'none'
+                s1.get(r.cell, r.path)['first_hint'] = h
+            # the property's own exclusion: a source reporting "nothing left" while it still holds elements
+            s1.pc.append(z3.Implies(h == 0, q['yielded'] == q['count']))
+            s1.events.append('seq.size_hint() -> Some(%s)' % h)
+            outs.append((s1, 'ret', Enum('Some', {0: h})))
+            s2 = st.clone(); s2.events.append('seq.size_hint() panicked'); s.unwind_edges += 1; outs.append((s2, 'unwind', None))
+            return outs
+        m = re.match(r'^<A as SeqAccess<.*>>::next_element::<(\w+)>$', c)
+        if m:
+            r = args[0]
+            q = st.get(r.cell, r.path)
+            st.pc.append(ULE(q['yielded'], q['count']))
+            outs = []
+            s2 = st.clone(); s2.events.append('seq.next_element() panicked'); s.unwind_edges += 1; outs.append((s2, 'unwind', None))
+            s3 = st.clone(); s3.events.append('seq.next_element() -> Err'); outs.append((s3, 'ret', Enum('Err', {0: Opaque('deserializer error')})))
+            if s.feasible(st, q['yielded'] == q['count']):
+                s0 = st.clone(); s0.pc.append(q['yielded'] == q['count']); s0.events.append('seq.next_element() -> Ok(None)')
+                outs.append((s0, 'ret', Enum('Ok', {0: Enum('None', {})})))
+            if s.feasible(st, ULT(q['yielded'], q['count'])):
+                s1 = st.clone(); s1.pc.append(ULT(q['yielded'], q['count']))
+                q1 = s1.get(r.cell, r.path)
+                q1['yielded'] = q1['yielded'] + 1
+                if m.group(1) == 'T':
+                    k, v = s.fresh_value(s1, 'element')
+                    s1.events.append('seq.next_element() -> Ok(Some(element))')
+                else:
+                    v = Opaque('Dummy')
+                    s1.events.append('seq.next_element::<Dummy>() -> Ok(Some(_))')
+                outs.append((s1, 'ret', Enum('Ok', {0: Enum('Some', {0: v})})))
+            return outs
+        if re.search(r' as (serde::)?de::Error>::invalid_length$', c) or re.search(r' as Error>::invalid_length$', c):
+            s2 = st.clone(); s2.events.append('Error::invalid_length panicked'); s.unwind_edges += 1
+            return [(st, 'ret', Opaque('invalid_length error')), (s2, 'unwind', None)]
+        if re.match(r'^<Option<usize> as PartialEq>::ne$', c):
+            a, b = args
+            va = st.get(a.cell, a.path) if isinstance(a, Ref) else a
+            if isinstance(b, Opaque) and 'promoted' in b.tag:
+                fm = re.search(r'(\w+)(?:::<[^>]*>)?::promoted\[(\d+)\]$', b.tag)
+                pm = fm and re.search(r'^const [^\n]*::' + fm.group(1) + r'::promoted\[' + fm.group(2) + r'\]: &(?:core::option::)?Option<usize> = \{[^}]*?Some\(const (\d+)_usize\)', s.mir_text or '', re.S | re.M)
+                k0 = int(pm.group(1)) if pm else None
+                if k0 is None:
+                    raise NotImplementedError('promoted Option<usize> constant not found')
+                if va.variant == 'None':
+                    return R(z3.BoolVal(True))
+                return R(va.fields[0] != bv(k0))
+            raise NotImplementedError('Option<usize>::ne on non-constant')
         # ---- delegation targets: the slice's own trait methods and core::fmt builders stay UNINTERPRETED; the call is recorded
         m = re.match(r'^<\[T\] as (PartialEq|PartialOrd|Ord|Hash|Debug)>::(eq|ne|partial_cmp|cmp|hash|fmt|lt|le|gt|ge)(::<.*>)?$', c)
         if m:
